@@ -374,9 +374,12 @@ func (s *script) event() bool {
 		case x < 95:
 			s.count("rto")
 			return s.rto()
-		case x < 97:
+		case x < 96:
 			s.count("rst-out-of-window")
 			return s.rst(false)
+		case x < 97:
+			s.count("rst-in-window")
+			return s.rst(true)
 		case x < 98:
 			s.count("peer-fin")
 			return s.peerFinSeg()
@@ -429,7 +432,24 @@ func runScript(seed uint64, idx int, mix string, nev int, kinds map[string]int) 
 	wsel := r.Intn(8)
 	if wrapOnly {
 		// C14's TCP corollary: every script places a window edge or the stream across 2^32 / 2^31
-		wsel = r.Intn(6)
+		x := r.Intn(100)
+		switch {
+		case x < 45:
+			wsel = 0
+		case x < 60:
+			wsel = 1
+		case x < 75:
+			wsel = 2
+		case x < 85:
+			wsel = 3
+		default:
+			wsel = 4
+		}
+		if wsel <= 1 && r.Intn(3) != 0 {
+			// a small receive buffer: a window's worth of data fits in one script
+			cfg.RcvBuf = []int{100, 300, 700}[r.Intn(3)]
+			effRcv = uint32(cfg.RcvBuf)
+		}
 		if wsel >= 4 {
 			near := []uint32{0x7fffff00, 0x7ffffff0, 0x7fffffff, 0xffffff00, 0xfffffff0, 0xffffffff}
 			cfg.ISS, cfg.IRS = near[r.Intn(len(near))], near[r.Intn(len(near))]
